@@ -817,6 +817,16 @@ func (fr *Frame) envAt(st *State, b *ssa.BasicBlock, idx int) *Env {
 		e.pkg = fr.fn.Parent().Pkg.Pkg
 	}
 	e.lookup = func(name string) (Val, bool) { return fr.lookupAt(name, b, idx, st) }
+	e.params = func(name string) (Val, bool) {
+		for _, p := range fr.fn.Params {
+			if p.Name() == name {
+				if v, ok := fr.vals[p]; ok {
+					return v, true
+				}
+			}
+		}
+		return Val{}, false
+	}
 	return e
 }
 
@@ -1093,9 +1103,13 @@ func (e *Env) evalModLoc(x Expr) (l *Loc, whole bool, err error) {
 			efail("modifies: no field %s", x.Name)
 		}
 		cur := base
+		// a struct VALUE cannot be the base of a location
+		if _, isPtr := cur.Go.Underlying().(*types.Pointer); !isPtr && cur.Loc == nil {
+			efail("modifies: %s is not addressable (field of a struct value)", exprString(x))
+		}
 		for i, idx := range path {
+			fl := g.fieldLoc(cur, idx)
 			if i == len(path)-1 {
-				fl := g.fieldLoc(cur, idx)
 				if fl.Loc != nil {
 					return fl.Loc, false, nil
 				}
@@ -1103,7 +1117,16 @@ func (e *Env) evalModLoc(x Expr) (l *Loc, whole bool, err error) {
 				at := fl.Go.Underlying().(*types.Pointer).Elem().Underlying().(*types.Array)
 				return &Loc{Heap: g.elemsHeap(at.Elem()), Idx: []string{fl.T}, T: at}, false, nil
 			}
-			cur = g.fieldOf(e.st, cur, idx)
+			// intermediate step: an in-line struct stays a location, a pointer field is followed
+			if fl.Loc != nil {
+				if _, isStruct := fl.Loc.T.Underlying().(*types.Struct); isStruct {
+					cur = fl
+					continue
+				}
+				cur = g.loadLoc(e.st, fl.Loc)
+				continue
+			}
+			efail("modifies: cannot step through array field in %s", exprString(x))
 		}
 	case *ECall:
 		name := ""
